@@ -48,6 +48,7 @@ pub mod cypher14;
 pub mod extid;
 pub mod capi;
 pub mod capix;
+pub mod capilbl;
 pub mod hostcrash;
 pub mod crash;
 pub mod fault;
@@ -85,6 +86,7 @@ pub fn all() -> Vec<StreamDef> {
         capi::def(),
         capi::def_ryw(),
         capix::def(),
+        capilbl::def(),
         hostcrash::def(),
         crash::def(),
         fault::def(),
